@@ -26,28 +26,36 @@ FUNCTIONS = ['bfg9000.builtins.compile.object_file/CompileSource/_get_flags/make
 OUTSIDE = ['symbolic file names', 'more than one symbolic string per edge', 'libraries / packages '
            'on the edge', 'MSBuild', 'install, test and regenerate rules', 'strings longer than the bound']
 STUBS = ['Environment built once at import with the real gcc detection (concrete, untraced)']
-ASSUMPTIONS = ['rninja trusted; rmake/rsh validated against the real tools in C01']
+ASSUMPTIONS = ['rninja trusted; rmake/rsh validated against the real tools in C01', 'GNU Make variable lookup order for prerequisites (own > pattern-specific > inherited from the dependant > global) validated against the real make on all 8 combinations per run']
 
 
 def bounds(tier):
     q = tier == 'quick'
     return {'string_length': '0..%d' % (1 if q else 2), 'alphabet': 'all Unicode except NUL, CR, LF',
             'edges': ['compile (object_file with per-target and global options)',
-                      'link (executable with link option)', 'build_step (list-form command)', 'link with a project static library and a global link option', 'whole build.ninja (file-scope variable order) for a compile edge with global include dir/option']}
+                      'link (executable with link option)', 'build_step (list-form command)', 'link with a project static library and a global link option', 'whole build.ninja (file-scope variable order) for a compile edge with global include dir/option', 'compile edge built as a prerequisite of an edge with its own options (Make hands target-specific variables down to prerequisites)']}
 
 
 def obligations(tier, kf):
     q = tier == 'quick'
     obs = []
-    for fn in ('c_compile', 'l_link', 'b_build_step', 'g_link_lib_global'):
+    for fn in ('c_compile', 'l_link', 'b_build_step', 'g_link_lib_global', 'p_prereq'):
         for n in range(0, (1 if q else 2) + 1):
             obs.append(Ob(fn, {'N': n}, 600 if n < 2 else 3000, desc='%s |s|==%d' % (fn, n)))
         obs.append(Ob(fn, {'N': 1}, 200).twin())
     w = Ob('w_whole_file', {}, 900, desc='complete build.ninja from the real writer, file-scope evaluation order')
     obs += [w, w.twin(), w.mutant('ninja_srcdir_after_flags')]
+    obs.append(Ob('p_prereq', {'N': 1}, 600).mutant('make_flags_vars_global'))
     obs.append(Ob('c_compile', {'N': 1}, 600).mutant('compdb_drops_target_options'))
     obs.append(Ob('c_compile', {'N': 1}, 600).mutant('ninja_no_dollar'))
     obs.append(Ob('l_link', {'N': 1}, 600).mutant('make_no_dollar'))
     obs.append(Ob('b_build_step', {'N': 1}, 600).mutant('posix_quote_safe'))
     obs.append(Ob('g_link_lib_global', {'N': 1}, 600).mutant('ldlibs_uses_global_ldflags'))
     return obs
+
+
+def conformance(tier):
+    from vpx import conformance as cf
+    a, d, bad = cf.check_make_inheritance()
+    return [('GNU Make lookup order of target-specific / pattern-specific / inherited / global '
+             'variables vs /usr/bin/make', a, d, bad)]
